@@ -124,6 +124,10 @@ def cmdOfJson (j : Json) : Except String WCmd := do
   let user := (← jnatOpt j "user").getD 0
   if op == "clearcache" then
     pure (.clearCache user)
+  else if op == "envrmdir" then
+    pure (.envRmDir (← dirOfJson (← j.getObjVal? "dir")))
+  else if op == "adminbuild" then
+    pure (.adminBuild user (← jstr j "self"))
   else if op == "rmcache" then
     let s ← jnat j "stack"
     let f ← jstr j "flavor"
